@@ -48,6 +48,8 @@ ValidPerms(p) == p \in GoodPerms
 LONG      == "LONG"                                      \* driver: 257 bytes
 ValidName(n) == n # "" /\ n # LONG
 NoId      == 99                                          \* never a log index
+\* token expiry values relative to created_at (always 1000): none, before, equal, after
+Exps      == {0, 500, 1000, 2000}
 
 Only(S) == CHOOSE x \in S : TRUE
 
@@ -154,7 +156,7 @@ ApplyCreateToken(s, c, i) ==
     IF ~ValidName(c.name) \/ c.hash = "" \/ c.prefix = "" \/ ~ValidPerms(c.perms) \/ c.cz THEN R(s, FALSE)
     ELSE IF \E b \in s.tname : b.name = c.name THEN R(s, FALSE)
     ELSE R([s EXCEPT !.tokens = @ \cup {[id |-> i, name |-> c.name, prefix |-> c.prefix, hash |-> c.hash,
-                                          perms |-> c.perms, enabled |-> TRUE, lsn |-> i]},
+                                          perms |-> c.perms, enabled |-> TRUE, exp |-> c.exp, lsn |-> i]},
                      !.tpre   = @ \cup {[prefix |-> c.prefix, id |-> i]},
                      !.tname  = @ \cup {[name |-> c.name, id |-> i]}], TRUE)
 
@@ -169,7 +171,9 @@ ApplyUpdateToken(s, c, i) ==
          IF "name" \in c.changed /\ \E b \in s.tname : b.name = c.name /\ b.id # c.id THEN R(s, FALSE)
          ELSE LET nm == IF "name" \in c.changed THEN c.name ELSE e.name
                   pm == IF "permissions" \in c.changed THEN c.perms ELSE e.perms
-                  e2 == [e EXCEPT !.name = nm, !.perms = pm, !.lsn = i]
+                  \* expires_at is written as given: no relation to created_at (= 1000) is enforced anywhere
+                  ex == IF "expires_at" \in c.changed THEN c.exp ELSE e.exp
+                  e2 == [e EXCEPT !.name = nm, !.perms = pm, !.exp = ex, !.lsn = i]
               IN R([s EXCEPT !.tokens = (@ \ {e}) \cup {e2},
                              !.tname  = IF "name" \in c.changed
                                           THEN {b \in @ : b.name # e.name} \cup {[name |-> c.name, id |-> e.id]}
@@ -446,12 +450,14 @@ FileCmds(s) ==
     \cup [t : {"BatchFileOps"}, ops : {<<>>}]
 
 TokenCmds(s) ==
-    [t : {"CreateToken"}, name : {"t1", "t2"}, prefix : {"p1", "p2"}, hash : {"h1"}, perms : {"read"}, cz : {FALSE}]
-    \cup [t : {"CreateToken"}, name : {"", LONG}, prefix : {"p1"}, hash : {"h1"}, perms : {"read"}, cz : {FALSE}]
-    \cup [t : {"CreateToken"}, name : {"t1"}, prefix : {"", "p1"}, hash : {"", "h1"}, perms : {"bogus", "read, write"}, cz : {FALSE, TRUE}]
-    \cup [t : {"UpdateToken"}, id : Ids(s.tokens), changed : {{"name"}}, name : {"t1", "t2", "", LONG}, perms : {""}]
-    \cup [t : {"UpdateToken"}, id : Ids(s.tokens), changed : {{"permissions"}, {"name", "permissions"}}, name : {"t2"}, perms : {"", "bogus"}]
-    \cup [t : {"UpdateToken"}, id : Ids(s.tokens), changed : {{}}, name : {""}, perms : {""}]
+    [t : {"CreateToken"}, name : {"t1", "t2"}, prefix : {"p1", "p2"}, hash : {"h1"}, perms : {"read"}, cz : {FALSE}, exp : {0}]
+    \cup [t : {"CreateToken"}, name : {"t1"}, prefix : {"p1"}, hash : {"h1"}, perms : {"read"}, cz : {FALSE}, exp : Exps]
+    \cup [t : {"CreateToken"}, name : {"", LONG}, prefix : {"p1"}, hash : {"h1"}, perms : {"read"}, cz : {FALSE}, exp : {0}]
+    \cup [t : {"CreateToken"}, name : {"t1"}, prefix : {"", "p1"}, hash : {"", "h1"}, perms : {"bogus", "read, write"}, cz : {FALSE, TRUE}, exp : {0}]
+    \cup [t : {"UpdateToken"}, id : Ids(s.tokens), changed : {{"name"}}, name : {"t1", "t2", "", LONG}, perms : {""}, exp : {0}]
+    \cup [t : {"UpdateToken"}, id : Ids(s.tokens), changed : {{"permissions"}, {"name", "permissions"}}, name : {"t2"}, perms : {"", "bogus"}, exp : {0}]
+    \cup [t : {"UpdateToken"}, id : Ids(s.tokens), changed : {{"expires_at"}}, name : {""}, perms : {""}, exp : Exps]
+    \cup [t : {"UpdateToken"}, id : Ids(s.tokens), changed : {{}}, name : {""}, perms : {""}, exp : {500}]
     \cup [t : {"RevokeToken", "DeleteToken"}, id : Ids(s.tokens)]
     \cup [t : {"RotateToken"}, id : Ids(s.tokens), hash : {"h2"}, prefix : {"p1", "p2", ""}]
     \cup [t : {"RotateToken"}, id : Ids(s.tokens), hash : {""}, prefix : {"p2"}]
@@ -478,9 +484,9 @@ RbacCmds(s) ==
 
 \* in an rbac-only focus a token is still needed for memberships
 SeedTokenCmds(s) ==
-    [t : {"CreateToken"}, name : {"t1"}, prefix : {"p1"}, hash : {"h1"}, perms : {"read"}, cz : {FALSE}]
+    [t : {"CreateToken"}, name : {"t1"}, prefix : {"p1"}, hash : {"h1"}, perms : {"read"}, cz : {FALSE}, exp : {0}]
     \cup [t : {"DeleteToken"}, id : Ids(s.tokens)]
-    \cup [t : {"UpdateToken"}, id : Ids(s.tokens), changed : {{"name"}}, name : {""}, perms : {""}]
+    \cup [t : {"UpdateToken"}, id : Ids(s.tokens), changed : {{"name"}}, name : {""}, perms : {""}, exp : {0}]
 
 \* "deep" focus: mostly well-formed RBAC/token commands so that bounded exhaustive search reaches
 \* full org -> team -> role -> measurement-permission chains, memberships and their cascades
@@ -496,13 +502,39 @@ DeepCmds(s) ==
     \cup [t : {"DeleteRole"}, id : ExIds(s.roles)]
     \cup [t : {"CreateMPerm"}, role : ExIds(s.roles), pat : {"cpu*"}, perms : {"read"}, cz : {FALSE}]
     \cup [t : {"DeleteMPerm"}, id : ExIds(s.mperms)]
-    \cup [t : {"CreateToken"}, name : {"t1"}, prefix : {"p1"}, hash : {"h1"}, perms : {"read"}, cz : {FALSE}]
-    \cup [t : {"UpdateToken"}, id : ExIds(s.tokens), changed : {{"name"}}, name : {"", "t2"}, perms : {""}]
+    \cup [t : {"CreateToken"}, name : {"t1"}, prefix : {"p1"}, hash : {"h1"}, perms : {"read"}, cz : {FALSE}, exp : {0, 2000}]
+    \cup [t : {"UpdateToken"}, id : ExIds(s.tokens), changed : {{"name"}}, name : {"", "t2"}, perms : {""}, exp : {0}]
+    \cup [t : {"UpdateToken"}, id : ExIds(s.tokens), changed : {{"expires_at"}}, name : {""}, perms : {""}, exp : {500, 1000}]
     \cup [t : {"DeleteToken"}, id : ExIds(s.tokens)]
     \cup [t : {"AddTokenToTeam"}, token : ExIds(s.tokens), team : ExIds(s.teams), cz : {FALSE}]
     \cup [t : {"RemoveTokenFromTeam"}, token : ExIds(s.tokens), team : ExIds(s.teams)]
 
+\* "failover" focus: registration, promote/demote, removal and every node-state value (healthy /
+\* unhealthy / dead / leaving) for the nodes of a small cluster, deep enough for register both ->
+\* promote -> state change of the primary -> promote the other
+FailoverCmds(s) ==
+    [t : {"AddNode"}, id : NodeIds, role : {"writer"}, ws : {""}, state : {"healthy"}]
+    \cup [t : {"UpdateNodeState"}, id : NodeIds, state : {"healthy", "unhealthy", "dead", "leaving"}]
+    \cup [t : {"PromoteWriter"}, id : NodeIds, old : {""}]
+    \cup [t : {"DemoteWriter", "RemoveNode"}, id : NodeIds]
+
+\* "dup" focus: creations that are REFUSED because of a uniqueness rule (same name / same pair, new id)
+\* followed by deletion of the parent.  Its cfg has no VIEW: a refused command leaves the model state
+\* unchanged, so with a VIEW only one representative refused history per state would be continued.
+OwnIds(S) == {x.id : x \in S}
+DupCmds(s) ==
+    [t : {"CreateOrg"}, name : {"o1"}, cz : {FALSE}]
+    \cup [t : {"CreateTeam"}, org : OwnIds(s.orgs), name : {"m1"}, cz : {FALSE}]
+    \cup [t : {"CreateToken"}, name : {"t1"}, prefix : {"p1"}, hash : {"h1"}, perms : {"read"}, cz : {FALSE}, exp : {0}]
+    \cup [t : {"AddTokenToTeam"}, token : OwnIds(s.tokens), team : OwnIds(s.teams), cz : {FALSE}]
+    \cup [t : {"UpdateOrg"}, id : OwnIds(s.orgs), changed : {{"name"}}, name : {"o1"}, enabled : {FALSE}]
+    \cup [t : {"DeleteOrg"}, id : OwnIds(s.orgs)]
+    \cup [t : {"DeleteTeam"}, id : OwnIds(s.teams)]
+    \cup [t : {"DeleteToken"}, id : OwnIds(s.tokens)]
+
 Cmds(s) ==
+    (IF "failover" \in Focus THEN FailoverCmds(s) ELSE {}) \cup
+    (IF "dup"   \in Focus THEN DupCmds(s)   ELSE {}) \cup
     (IF "deep"  \in Focus THEN DeepCmds(s)  ELSE {}) \cup
     (IF "node"  \in Focus THEN NodeCmds(s)  ELSE {}) \cup
     (IF "file"  \in Focus THEN FileCmds(s)  ELSE {}) \cup
